@@ -72,6 +72,7 @@ def run(ctx):
             k = rng.below(4)
             if k >= 2:
                 sent = tplm.mutate_sentence(rng, sent)
+            sent = sent[:12]      # matching time is exponential in the input length for nested right recursion
             cases.append((gtext, tplm.sentence_text(sent).encode()))
             meta.append(("derived" if k < 2 else "near-match", rules, None))
     # choices whose options share / almost share their first token: exercises CheckConflicts/stops and the commit rule
